@@ -870,7 +870,7 @@ class FnTranslator:
         if self.is_result:
             return self.result_comp(e, env)
         pre = []
-        term, ty = self.expr(e, env, pre, self.val_ty if self.val_ty[0] != "opaque" else None)
+        term, ty = self.expr(e, env, pre, self.val_ty if (self.val_ty[0] != "opaque" or e[0] == "macro") else None)   # (a diverging macro keeps the declared type: b1819's `unimplemented!()` bodies)
         if self.val_ty[0] == "opaque" and ty[0] == "struct" and self.ret == self.val_ty:
             # (b0507) a struct value returned where the signature names a type the unit does not know
             # (`Arc<dyn Validator>`, `Box<dyn Policy>`): rustc accepted it, so it is the unsizing coercion of that struct
@@ -951,6 +951,11 @@ class FnTranslator:
             return '("%s " ++ toString %s)' % (self.u.error_ctors[e[1][1][-1]], term)
         if e[0] == "mcall" and e[2] == "into":
             return self.err_tag(e[1], env, pre)
+        if e[0] == "mcall" and e[2] == "unwrap_err" and e[1][0] == "path" and len(e[1][1]) == 1 \
+                and env.get(e[1][1][0], (None,))[0] == "captured":
+            t = self.fresh("t")        # (b0507) the error of a captured Result is raised again
+            pre.append(("bind", t, MCall("Rs.unwrapErr %s" % lid(e[1][1][0]))))
+            return t
         # util/status.rs: `Status::internal(msg)`, `invalid_argument(msg)`, … -- the error class is the constructor, the
         # message is dropped
         if e[0] == "call" and e[1][0] == "path" and "::".join(e[1][1]) in STATUS_ERRS:
@@ -1028,17 +1033,36 @@ class FnTranslator:
             return acc
         if k == "let":
             if e[3] is not None: self.assigned(e[3], acc, declared)
-            for v in self.pat_vars(e[1]): declared.add(v)
+            # (b1315, round 9) a write-through alias declared inside the construct (`let x = X.lock().unwrap()`,
+            # `X.as_mut().unwrap()`, `X.iter_mut().find(..).unwrap()`, `&mut X`) is not a new variable: a write through it
+            # is a write to the root of X.  It used to count as a local, so that the enclosing if/match/for did not
+            # carry the written place over (the write was lost: monitor.rs `on_transaction_output`).
+            tgt = None
+            if e[1][0] == "pvar" and e[3] is not None:
+                init = e[3]
+                if self.lock_alias(init) is not None: tgt = self.lock_alias(init)
+                elif self.some_alias(init) is not None: tgt = self.some_alias(init)[1]
+                elif self.find_alias(init) is not None: tgt = self.find_alias(init)[0]
+                elif init[0] == "ref" and len(init) > 2: tgt = init[1]
+            aroots = self.__dict__.setdefault("_aroots", {})
+            if tgt is not None:
+                try:
+                    aroots[e[1][1]] = self.alias_root(tgt)
+                    return acc
+                except RsError:
+                    pass
+            for v in self.pat_vars(e[1]):
+                declared.add(v); aroots.pop(v, None)
             return acc
         if k == "assign":
-            r = self.place_root(e[2])
+            r = self.alias_root(e[2])
             if r not in declared and r not in acc: acc.append(r)
             self.assigned(e[3], acc, declared)
             return acc
         if k == "ref" and len(e) > 2:
             # `&mut place` handed to a callee: the place may be assigned
             try:
-                r = self.place_root(e[1])
+                r = self.alias_root(e[1])
                 if r not in declared and r not in acc: acc.append(r)
             except RsError:
                 pass
@@ -1047,7 +1071,7 @@ class FnTranslator:
             while x[0] == "mcall" and x[2] != "entry": x = x[1]
             if x[0] == "mcall":
                 try:
-                    r = self.place_root(x[1])
+                    r = self.alias_root(x[1])
                     if r not in declared and r not in acc: acc.append(r)
                 except RsError:
                     pass
@@ -1055,7 +1079,7 @@ class FnTranslator:
             if e[2] in MUT_METHODS or e[2] == "take" or self.is_mut_self_call(e) or e[2] in ATOMIC_OPS \
                     or any(n.endswith("." + e[2]) and x.get("updates_receiver") for n, x in self.u.externals.items()):
                 try:
-                    r = self.place_root(e[1])
+                    r = self.alias_root(e[1])
                     if r not in declared and r not in acc: acc.append(r)
                 except RsError:
                     pass
@@ -1063,6 +1087,15 @@ class FnTranslator:
         for x in e[1:]:
             if isinstance(x, (tuple, list)): self.assigned(x, acc, declared)
         return acc
+
+    def alias_root(self, place):
+        """root variable of a place, seen through the write-through aliases recorded by `assigned`"""
+        r = self.place_root(place)
+        aroots = self.__dict__.get("_aroots", {})
+        seen = set()
+        while r in aroots and r not in seen:
+            seen.add(r); r = aroots[r]
+        return r
 
     def is_mut_self_call(self, e):
         impl = None
@@ -1122,6 +1155,16 @@ class FnTranslator:
                 if e[0] == "mcall" and e[2] == "clone" and not e[4]: owned.add(pat[1])
                 else: owned.discard(pat[1])
             want = self.u.resolve(ty, self.impl) if ty is not None else None
+            if want is None and pat[0] == "pvar" and e[0] == "struct" and len(e) > 3 and e[3] is None \
+                    and not self.mentions([rest, tail], pat[1]):
+                # (round 9, bfn) `let x = S { .. };` whose only readers are logging macros (dropped): the literal would have
+                # no expected type in Lean; its field expressions are still evaluated (their panics stay), the value is not bound
+                pre = []
+                self.expr(e, env, pre, None)
+                self.dropped.append("local `%s` (line %d): a struct literal only read by dropped logging macros" % (pat[1], line))
+                env2 = dict(env)
+                env2[pat[1]] = ("dropped",)
+                return self.wrap(pre, self.stmts(rest, tail, env2, fin))
             if want is None and pat[0] == "pvar" and e[0] == "call" and e[1][0] == "path" and len(e[1][1]) == 2 \
                     and e[1][1][1] in ("new", "with_capacity", "default") and self.f["body"][2] == ("path", [pat[1]]) \
                     and self.val_ty[0] in ("vec", "map", "umap", "set", "uset"):
@@ -1131,6 +1174,20 @@ class FnTranslator:
                 _, at = self.expr(al, env, [], None)
                 env2 = dict(env)
                 env2[pat[1]] = ("alias", al, at)
+                return self.stmts(rest, tail, env2, fin)
+            if e[0] == "ref" and len(e) > 2 and pat[0] == "pvar":
+                # (b1315, round 9) `let x = &mut a.b.c;`: x is a write-through alias of the place.  It used to be bound
+                # like a value, so that writes through x (`x.f = e`, `x.m()` for a `&mut self` method) were silently lost
+                # (monitor.rs `PushListener::on_transaction_start/_output`).  Only plain field paths; anything else is refused.
+                tgt = e[1]
+                while tgt[0] == "paren": tgt = tgt[1]
+                t2 = tgt
+                while t2[0] == "field": t2 = t2[1]
+                if t2[0] != "path" or len(t2[1]) != 1:
+                    raise RsError("`let x = &mut place` on a place that is not a field path (line %d)" % line)
+                _, at = self.expr(tgt, env, [], None)
+                env2 = dict(env)
+                env2[pat[1]] = ("alias", tgt, at)
                 return self.stmts(rest, tail, env2, fin)
             if pat[0] == "pvar" and ("let:" + pat[1]) in self.u.externals:
                 return self.let_external(pat[1], e, line, rest, tail, env, fin)
@@ -1175,6 +1232,10 @@ class FnTranslator:
                 pre[-1] = ("bind", "_", pre[-1][2])
                 return self.wrap(pre, self.stmts(rest, tail, env2, fin))
             if e[0] in ("if", "iflet", "match") and self.has_jump(e):
+                if pat[0] == "pvar" and not getattr(self, "in_loop", False):
+                    # (b0507) `let x = if c { a } else { …; return e };`: the rest of the function is continued in every
+                    # branch that yields a value (as for `if` statements with `return`), `x` bound to that value
+                    return self.control(e, env, lambda env2, t: self.stmts([("let", pat, ty, t, line)] + list(rest), tail, env2, fin))
                 raise RsError("return inside a let initialiser (line %d)" % line)
             if pat[0] == "pvar" and e[0] == "mcall" and e[2] in ("unwrap", "expect") and e[1][0] == "mcall" \
                     and e[1][2] == "try_into" and not e[1][4]:
@@ -1204,7 +1265,22 @@ class FnTranslator:
                 return self.let_inferred(pat, e, env, rest, tail, fin, line)    # e.g. `let mut min = 1 << 48;`
             pre = []
             self.last_guard = False
-            term, t = self.expr(e, env, pre, want)
+            try:
+                term, t = self.expr(e, env, pre, want)
+            except RsError as ex:
+                if "Result-valued call used as a value" not in str(ex) or pat[0] != "pvar" or ty is not None \
+                        or e[0] not in ("call", "mcall"):
+                    raise
+                # (b0507) `let r = f(..);` with a `Result`-valued call of a translated function: the `Err` is captured as a
+                # value (`Rs.capture`; a panic / overflow of the callee still propagates here); `r` can then only be asked
+                # `is_ok() / is_err()` and re-raised by `Err(r.unwrap_err())`
+                pre = []
+                r = self.call_any(e, env, pre, want_result=True)
+                if r is None or r[2] != "comp": raise
+                env2 = dict(env)
+                lp = self.bind_pat(pat, ("captured", r[1]), env2)
+                pre.append(("bind", lp, MCall("Rs.capture (%s)" % r[0])))
+                return self.wrap(pre, self.stmts(rest, tail, env2, fin))
             if self.last_guard and pat[0] == "pvar":
                 # the value of a function that returns a MutexGuard: a copy here, so writes through it would be lost
                 self.guard_vars = getattr(self, "guard_vars", set()) | {pat[1]}
@@ -1220,6 +1296,10 @@ class FnTranslator:
             # rename the last temporary instead of an extra let
             if pre and pre[-1][0] in ("bind", "let") and pre[-1][1] == term and pat[0] == "pvar":
                 pre[-1] = (pre[-1][0], lp, pre[-1][2])
+            elif t[0] == "struct" and term.startswith("{ ") and t[1] in getattr(self.u, "ascribe_let_structs", ()):
+                # (b0507) a struct literal bound by `let` whose type Lean cannot infer from a later use (a local struct
+                # declared as a view): ascribed
+                pre.append(("let", lp, "(%s : %s)" % (term, self.u.lt(t))))
             else:
                 pre.append(("let", lp, term))
             pre += self.flush_patlets()
@@ -2475,6 +2555,11 @@ class FnTranslator:
             if op in ("==", "!="):
                 self.note_eq(at)
                 return "(%s %s %s)" % (a, op, b), BOOL
+            if at[0] == "opt" and is_uint(at[1]):
+                # (b0507) derived `PartialOrd` of `Option<uN>`: `None` is below every `Some`, `Some`s by their content
+                t = {"<": "(Rs.optLt %s %s)" % (a, b), ">": "(Rs.optLt %s %s)" % (b, a),
+                     "<=": "(!(Rs.optLt %s %s))" % (b, a), ">=": "(!(Rs.optLt %s %s))" % (a, b)}[op]
+                return t, BOOL
             if not is_int(at): raise RsError("ordering comparison on a non-integer type %r" % (at,))
             lop = {"<": "<", "<=": "≤", ">": ">", ">=": "≥"}[op]
             return "(decide (%s %s %s))" % (a, lop, b), BOOL
@@ -2570,6 +2655,15 @@ class FnTranslator:
     def value_control(self, e, env, pre, want):
         """if/match/block used as a value"""
         if self.has_return(e): raise RsError("return inside a value expression")
+        # (b1315, round 9) fail closed: a branch of a value expression that assigns an outer variable / `self` (directly or
+        # through an alias) — the value is all that is kept of the branches, the assignment used to be silently lost
+        # (monitor.rs `on_transaction_input`: `… else if c.includes_htlc_output(..) { v.push(..); None } …`)
+        try:
+            lost = [v for v in self.assigned(e, [], set()) if v in env]
+        except RsError:
+            lost = []
+        if lost:
+            raise RsError("assignment to %s inside an if/match/block used as a value is outside the subset" % ", ".join(sorted(set(lost))))
         box = []
         def fin(env2, t):
             if t is None:
@@ -2831,8 +2925,8 @@ class FnTranslator:
                 term, t = self.expr(x, env, pre, ("int", "usize"))
             if want is not None and want[0] in ("vec", "map", "umap", "set", "uset"): return "[]", want, "val"
             raise RsError("%s::%s() without a known collection type (annotate the let)" % (segs[0], name))
-        if segs in (["Box", "new"], ["Arc", "new"], ["Rc", "new"]) and len(args) == 1:
-            # (round 9) `Box<T>` / `Arc<T>` are `T` (see rsparse / resolve): their constructor is the identity
+        if segs in (["Box", "new"], ["Arc", "new"], ["Rc", "new"], ["Mutex", "new"], ["RefCell", "new"]) and len(args) == 1:
+            # (round 9) `Box<T>` / `Arc<T>` / `Mutex<T>` are `T` (see rsparse / resolve): their constructor is the identity
             term, t = self.expr(args[0], env, pre, want)
             return term, t, "val"
         if segs == ["drop"] and len(args) == 1:
@@ -2955,6 +3049,19 @@ class FnTranslator:
             return v, rt, "val"
         if not terms: return ident, rt, "val"
         return "(%s %s)" % (ident, " ".join(terms)), rt, "val"
+
+    def mentions(self, a, name):
+        """does the AST `a` read the variable `name`?  Logging macros do not count (they are dropped); the argument tokens of
+        every other macro do."""
+        if isinstance(a, tuple):
+            if len(a) == 2 and a[0] == "path" and a[1] == [name]: return True
+            if a and a[0] == "macro":
+                if a[1] in ("trace", "debug", "info", "warn", "error") or a[1] in getattr(self.u, "log_macros", ()): return False
+                return any(getattr(tk, "k", None) == "id" and tk.s == name for tk in a[2])
+            return any(self.mentions(y, name) for y in a)
+        if isinstance(a, list):
+            return any(self.mentions(y, name) for y in a)
+        return False
 
     def closure_external(self, name, recv, args, env, pre, wr):
         """(round 9) `recv.m(a…, |x| BODY)` for a method declared `"Type.m": {"closure": "X", "params": [..]}` (the shape of
@@ -3116,6 +3223,40 @@ class FnTranslator:
                 pre.append(("bind", v, MCall("Rs.unwrapOk (%s)" % r0[0])))
                 return v, r0[1], "val"
             self.n = n0
+        if recv[0] == "path" and len(recv[1]) == 1 and env.get(recv[1][0], (None,))[0] == "captured":
+            # (b0507) a captured `Result` value (see the `let` rule)
+            x = lid(recv[1][0])
+            if m == "is_ok" and not args: return "(match %s with | Except.ok _ => true | Except.error _ => false)" % x, BOOL, "val"
+            if m == "is_err" and not args: return "(match %s with | Except.ok _ => false | Except.error _ => true)" % x, BOOL, "val"
+            raise RsError("method .%s on a captured Result is outside the subset" % m)
+        if any(n.endswith("." + m) and x.get("updates_receiver") for n, x in self.u.externals.items()):
+            # (b1819) receiver-updating external in value position / under `?`: `let v = r.read_u32_be()?;`,
+            # `w.write_all(&b)?;` — the external returns the new receiver, or the pair (new receiver, value); a declared
+            # `Result` must be "monadic" and consumed by `?` (or the tail position)
+            try:
+                self.place_root(recv); _, bt0 = self.expr(recv, env, [], None)
+            except RsError:
+                bt0 = None
+            nm = "%s.%s" % (bt0[1], m) if bt0 is not None and bt0[0] in ("opaque", "struct") else None
+            if nm in self.u.externals and self.u.externals[nm].get("updates_receiver"):
+                term, t, kind = self.call_external(nm, [recv] + list(args), env, pre)
+                if kind == "comp":
+                    if not wr or not self.is_result:
+                        raise RsError("Result of the receiver-updating external %s used other than by `?`" % nm)
+                    v = self.fresh()
+                    pre.append(("bind", v, MCall(term))); term = v
+                elif t[0] in ("tryres", "extres"):
+                    raise RsError("receiver-updating external %s: a declared Result must be monadic" % nm)
+                k2 = "tried" if kind == "comp" else "val"
+                if t == bt0:
+                    self.place_set(recv, term, env, pre)
+                    return "()", UNIT, k2
+                if t[0] == "tuple" and len(t[1]) == 2 and t[1][0] == bt0:
+                    a, b = self.fresh("rcv"), self.fresh("val")
+                    pre.append(("let", "(%s, %s)" % (a, b), term))
+                    self.place_set(recv, a, env, pre)
+                    return b, t[1][1], k2
+                raise RsError("receiver-updating external %s must return the receiver type or (receiver, value)" % nm)
         if recv == ("path", ["self"]) and ("self." + m) in self.u.externals:
             return self.call_external("self." + m, args, env, pre)
         if recv == ("path", ["self"]) and self.impl and "%s.%s" % (self.impl, m) in self.u.externals and "self" in env:
